@@ -28,6 +28,14 @@ func VerifC11SectionPlan() {
 	g.IncludeParameters = vBool("IncludeParameters")
 	g.IncludeResponses = vBool("IncludeResponses")
 	g.IncludeURLBuilder = vBool("IncludeURLBuilder")
+	// options that have nothing to do with the protection of user-edited files
+	g.Template = vOneOf("Template", "", "stratoscale")
+	g.TemplateDir = vOneOf("TemplateDir", "", "/custom/templates")
+	g.AllowTemplateOverride = vBool("AllowTemplateOverride")
+	g.IncludeSupport = vBool("IncludeSupport")
+	g.IncludeMain = vBool("IncludeMain")
+	g.ExcludeSpec = vBool("ExcludeSpec")
+	g.StrictResponders = vBool("StrictResponders")
 	DefaultSectionOpts(g)
 	vCover("planned")
 	var all []TemplateOpts
